@@ -106,7 +106,52 @@ func fullDomain(h *hx.H) {
 	h.State(h.Evaluations)
 	h.Trans(h.Evaluations)
 	h.Trace(h.Evaluations)
-	// outside the domain
+	// outside the domain, exhaustively for short strings: every string of 1..2 arbitrary bytes and
+	// of 3 bytes over a mixed alphabet (alphabet characters, their high-bit twins, UTF-8 lead and
+	// continuation bytes, NUL, space, DEL) that is not made of alphabet characters only
+	inAlphabet := func(s string) bool {
+		for i := 0; i < len(s); i++ {
+			if !strings.ContainsRune(string(alphabet[:]), rune(s[i])) || s[i] >= 0x80 {
+				return false
+			}
+		}
+		return true
+	}
+	outside := func(s string) {
+		if inAlphabet(s) {
+			return
+		}
+		idx, run := h.NextN()
+		if !run {
+			return
+		}
+		h.Eval(1)
+		h.NonTrivial++
+		var t2 intern.Table
+		if _, ok := t2.Query(s); ok {
+			h.Violate("outside-domain-query", hx.CaseID(idx), fmt.Sprintf("string %q is reported present in an empty table", s), nil)
+			return
+		}
+		x := t2.Intern(s)
+		if x <= 0 || t2.Value(x) != s {
+			h.Violate("outside-domain", hx.CaseID(idx), fmt.Sprintf("string %q: id %d, Value %q", s, int32(x), t2.Value(x)), nil)
+		}
+	}
+	for a := 0; a < 256; a++ {
+		outside(string([]byte{byte(a)}))
+		for b := 0; b < 256; b++ {
+			outside(string([]byte{byte(a), byte(b)}))
+		}
+	}
+	mixed := []byte{'a', 'Z', '0', '_', '.', 'a' | 0x80, '0' | 0x80, '_' | 0x80, 0xC3, 0xB1, 0xE5, 0x00, ' ', 0x7f, 0xff}
+	for _, a := range mixed {
+		for _, b := range mixed {
+			for _, c := range mixed {
+				outside(string([]byte{a, b, c}))
+				outside(string([]byte{a, b, c, 'x', 'y'}))
+			}
+		}
+	}
 	for _, s := range []string{"abcdef", "aaaaaa", "a b", "é", "a-b", "a.", ".", "ab.", "abcd.", "\x00", "A\xff", "......"} {
 		idx, run := h.NextN()
 		if !run {
